@@ -32,6 +32,10 @@ def gen(rng, tier):
             if rng.random() < 0.2:
                 case["heur"] = rng.choice(["10", "1", "40"])
                 case["V"] = max(1, case["V"] - 1)
+            if case["strict"] and rng.random() < 0.5:
+                # a depot with a finite window end: return arcs are then subject to the strict rule as well
+                his = [Fraction(nd["hi"]) for nd in spec["nodes"][1:] if nd["hi"] != "inf"]
+                spec["nodes"][0]["hi"] = fs(max(his + [Fraction(2)]) + Fraction(rng.randint(-2, 3)))
         else:
             case = FU.gen_form_case(rng, tier, forms=("seq",), heur_p=0.25, nmax=4)
             case["V"] = rng.choice([1, 1, 2, 2, 3])
